@@ -567,9 +567,12 @@ Inductive frd :=
 | FWaiting                   (* blocked in the receive *)
 | FWoken (open : bool).      (* received (open = false: channel closed); before re-locking *)
 
+(* the stanza that carries a data packet: an IQ (acknowledged) or a message *)
+Inductive carrier := CIq | CMsg.
+
 Inductive fhpc :=
 | FHIdle
-| FHLocked (n : nat)         (* a data packet of n bytes: readLock taken; before the readClosed test *)
+| FHLocked (c : carrier) (n : nat)  (* a data packet of n bytes: readLock taken; before the readClosed test *)
 | FHNotify                   (* data appended; before the non-blocking send *)
 | FHPanic.                   (* send on closed channel *)
 
@@ -588,9 +591,9 @@ Inductive ibbflabel :=
 | FRead (cap : nat)      (* Read(b), len(b) = cap > 0: takes the lock; returns at once if data is buffered *)
 | FWait                  (* the receive from readReady *)
 | FWake (cap : nat)      (* re-lock; leave the loop (closed), read, or test again *)
-| FData (n : nat)        (* handlePayload finds the stream and takes readLock *)
-| FCheck                 (* readClosed test; sequence number, decoding, append *)
-| FNotify                (* the non-blocking send *)
+| FData (c : carrier) (n : nat)  (* handlePayload (data carried by c) finds the stream and takes readLock *)
+| FCheck                 (* readClosed test; sequence number, decoding, append; acknowledgement if carried by an IQ *)
+| FNotify                (* the non-blocking send: on every successful path, whatever the carrier *)
 | FCloseRemote           (* close element from the peer: closeNoNotify -> closeRead *)
 | FCloseLocal.           (* Conn.Close by the application -> closeRead *)
 
@@ -631,15 +634,15 @@ Definition ibbf_step (s : ibbfstate) (l : ibbflabel) : option ibbfstate :=
           else Some (rd_take s cap)
       | _, _, _ => None
       end
-  | FData n =>
+  | FData c n =>
       match fb_h s with
       | FHIdle => if fb_closed s then None   (* stream unknown: item-not-found, nothing happens *)
-                  else Some (mkibbf (fb_buf s) (fb_tok s) (fb_closed s) (fb_rd s) (FHLocked n) (fb_outs s) (fb_refused s))
+                  else Some (mkibbf (fb_buf s) (fb_tok s) (fb_closed s) (fb_rd s) (FHLocked c n) (fb_outs s) (fb_refused s))
       | _ => None
       end
   | FCheck =>
       match fb_h s with
-      | FHLocked n =>
+      | FHLocked _ n =>
           if fb_closed s
           then Some (mkibbf (fb_buf s) (fb_tok s) (fb_closed s) (fb_rd s) FHIdle (fb_outs s) (S (fb_refused s)))
           else Some (mkibbf (fb_buf s + n) (fb_tok s) (fb_closed s) (fb_rd s) FHNotify (fb_outs s) (fb_refused s))
@@ -661,6 +664,16 @@ Definition ibbf_step (s : ibbfstate) (l : ibbflabel) : option ibbfstate :=
       | FHIdle => if fb_closed s then None else Some (close_read s)
       | _ => None
       end
+  end.
+
+(* what must not be: data carried by a message is appended but the reader is
+   not notified (the acknowledgement step returning early for that carrier) *)
+Definition ibbf_step_msg_silent (s : ibbfstate) (l : ibbflabel) : option ibbfstate :=
+  match l, fb_h s with
+  | FCheck, FHLocked CMsg n =>
+      if fb_closed s then ibbf_step s l
+      else Some (mkibbf (fb_buf s + n) (fb_tok s) (fb_closed s) (fb_rd s) FHIdle (fb_outs s) (fb_refused s))
+  | _, _ => ibbf_step s l
   end.
 
 Definition frd_code (p : frd) : nat :=
